@@ -209,7 +209,7 @@ def gen_use(rng, units, target, form, tag, counter, knobs):
         exk = guess_exports(units, target)
         bykind = {}
         for n in ex:
-            bykind.setdefault(CLS[exk[n]], []).append(n)
+            bykind.setdefault(CLS.get(exk[n], "CProc"), []).append(n)
         pools = [v for v in bykind.values() if len(v) >= 2]
         if not pools:
             return [mk(None, rename_items(pick_names()))]
